@@ -73,7 +73,7 @@ func TestC03_SelfCertifying(t *testing.T) {
 
 		// (b) single known-field modification
 		m := b.clone()
-		mod := rapid.IntRange(0, 9).Draw(t, "modification")
+		mod := rapid.IntRange(0, 10).Draw(t, "modification")
 		label := ""
 		deltaChange := false
 		switch mod {
@@ -121,6 +121,15 @@ func TestC03_SelfCertifying(t *testing.T) {
 				m.Delta["patches"] = ps[1:]
 			}
 			label, deltaChange = "delta-patch-removed", true
+		case 10:
+			// the recorded delta hash re-spelled so that it decodes to the same bytes: it is no longer the hash of the delta
+			h := m.SuffixData["deltaHash"].(string)
+			alt := nonCanonicalTail(h)
+			if alt == h { // sha2-512 hashes have no spare bits: change the digest instead
+				alt = refHash(map[string]interface{}{"other": "delta"}, alg)
+			}
+			m.SuffixData["deltaHash"] = alt
+			label, deltaChange = "suffix-delta-hash-respelled", true
 		case 8:
 			// same commitments hashed with the other algorithm (suffix data changes in two fields at once: still a modification)
 			o := uint(37) - alg
